@@ -24,7 +24,7 @@ def safe_random_history(rng, n):
         if k < 0.35:
             sh = rng.choice([1, 1, 2]) if has2[w - 1] else 1
             steps.append({"a": "SetText", "w": w, "sh": sh, "r": 1 if sh == 2 else rng.choice([1, 2]),
-                          "s": rng.choice(UNIVERSE)})
+                          "s": rng.choice(UNIVERSE), "rich": rng.random() < 0.35})
             raw[w - 1].discard(sh)
         elif k < 0.45:
             sh = rng.choice([1, 2]) if has2[w - 1] else 1
@@ -87,7 +87,13 @@ def gen_cases(chk):
     r = vlib.run_tlc("MC_SST", "MC_SST_replay.cfg", workers=4, coverage=False)
     if not r.ok or not r.replays:
         raise vlib.ToolError("replay generation failed: " + (r.violation or r.out[-400:]))
-    cases = [{"steps": rp} for rp in r.replays]
+    cases = []
+    for rp in r.replays:
+        # text cells are written as plain or as rich text (two runs): same string, other kind of table item
+        for st in rp:
+            if st.get("a") == "SetText":
+                st["rich"] = chk.rng.random() < 0.3
+        cases.append({"steps": rp})
     n1 = len(cases)
     for _ in range(300 if quick else 20000):
         cases.append({"steps": safe_random_history(chk.rng, chk.rng.randint(4, 25))})
@@ -96,6 +102,15 @@ def gen_cases(chk):
                             {"a": "SetText", "w": 1, "sh": 1, "r": 1, "s": "Qb7x"}, {"a": "Save", "w": 1}]})
     cases.append({"steps": [{"a": "Init"}, {"a": "Clone", "w": 1}, {"a": "SetText", "w": 2, "sh": 1, "r": 1, "s": "Qa7x"},
                             {"a": "Save", "w": 2}, {"a": "Save", "w": 1}]})
+    # several different rich texts in one save, rich next to plain text with the same characters
+    cases.append({"steps": [{"a": "Init"}, {"a": "SetText", "w": 1, "sh": 1, "r": 1, "s": "Qa7x", "rich": True},
+                            {"a": "SetText", "w": 1, "sh": 1, "r": 2, "s": "Qb7x", "rich": True},
+                            {"a": "SetText", "w": 1, "sh": 2, "r": 1, "s": "Qc7x", "rich": True}, {"a": "Save", "w": 1},
+                            {"a": "Clone", "w": 1}, {"a": "Save", "w": 2, "light": True}]})
+    cases.append({"steps": [{"a": "Init"}, {"a": "SetText", "w": 1, "sh": 1, "r": 1, "s": "Qa7x", "rich": False},
+                            {"a": "SetText", "w": 1, "sh": 1, "r": 2, "s": "Qa7x", "rich": True},
+                            {"a": "SetText", "w": 1, "sh": 2, "r": 1, "s": "Qb7x", "rich": True}, {"a": "Save", "w": 1},
+                            {"a": "Reload", "w": 1, "lazy": False}, {"a": "Save", "w": 2}]})
     # lazily reopened workbook, one sheet edited while the other stays raw (exercises C12-KF1 and the
     # carry-over path: double save, clone isolation, strings of earlier saves)
     base = [{"a": "Init"}, {"a": "SetText", "w": 1, "sh": 1, "r": 1, "s": "Qa7x"}, {"a": "SetText", "w": 1, "sh": 2, "r": 1, "s": "Qb7x"},
